@@ -127,6 +127,10 @@ M['c15_b5_os_level_write'] = ('C15', 'quiet', 'benign: in-place write-back throu
     (MAIN, "            if args.in_place:\n                with open(path, 'wb') as f:\n                    f.write(minified)\n",
            "            if args.in_place:\n                fd = os.open(path, os.O_WRONLY | os.O_TRUNC)\n                try:\n                    os.write(fd, minified)\n                finally:\n                    os.close(fd)\n"),
 ])
+M['c15_b6_restore_on_failure'] = ('C15', 'quiet', 'benign w.r.t. everything but F2: a failed in-place write restores the original bytes in `except BaseException` (runs on a simulated crash, never on real process death: the real crash must be believed)', [
+    (MAIN, "            if args.in_place:\n                with open(path, 'wb') as f:\n                    f.write(minified)\n",
+           "            if args.in_place:\n                try:\n                    with open(path, 'wb') as f:\n                        f.write(minified)\n                except BaseException:\n                    with open(path, 'wb') as f:\n                        f.write(source)\n                    raise\n"),
+])
 M['c15_b3_pathlib_io'] = ('C15', 'quiet', 'benign: reads through pathlib', [
     (MAIN, "            with open(path, 'rb') as f:\n                source = f.read()\n", "            import pathlib\n            source = pathlib.Path(path).read_bytes()\n"),
 ])
